@@ -465,6 +465,212 @@ fn sess_wrap(g: &mut Gen, total: usize) {
     }
 }
 
+// ---- send faults -------------------------------------------------------------------------------
+
+/// the network behaves again: disarm, then the fair suffix with the progress oracle
+fn fault_end(g: &mut Gen, max: usize) {
+    if !alive(g) {
+        return;
+    }
+    g.failsend(0, 0);
+    g.failsend(1, 0);
+    g.fair_suffix(max);
+}
+
+/// deliver everything in flight once, both directions
+fn deliver_all(g: &mut Gen) {
+    for from in 0..2 {
+        for n in g.undelivered(from) {
+            if alive(g) {
+                g.deliver(from, n);
+            }
+        }
+    }
+}
+
+/// `Callback::send` fails at one particular point: right before each kind of call that sends
+/// (connect, each answer of the handshake, send with an implicit flush, flush, tick with a due
+/// send timer / with a due retransmission of one and of several datagrams, a datagram that asks
+/// for a resend, disconnect, connless send).  A failed send is a lost datagram: afterwards the
+/// vital-prefix, well-formedness and (after the fair suffix) progress oracles must still hold.
+fn sess_fault(g: &mut Gen, kind: usize, var: usize) {
+    g.line("new");
+    match kind {
+        // the connect request (0.7: token request) is not sent
+        0 => {
+            g.failsend(0, 1 + (var % 2) as u32);
+            g.connect(0);
+        }
+        // the answer to the n-th handshake datagram is not sent
+        1 => {
+            g.connect(0);
+            let mut done = 0;
+            'outer: for _ in 0..8 {
+                for from in 0..2 {
+                    if let Some(&n) = g.undelivered(from).first() {
+                        if done == var % 5 {
+                            g.failsend(1 - from, 1);
+                        }
+                        g.deliver(from, n);
+                        done += 1;
+                        if done > var % 5 {
+                            break 'outer;
+                        }
+                    }
+                }
+                if !alive(g) {
+                    return;
+                }
+            }
+        }
+        _ => {
+            let tokenless = !IS7 && var % 3 == 1;
+            if !g.handshake(0, tokenless) {
+                return;
+            }
+            let i = var % 2;
+            match kind {
+                // send with an implicit flush
+                2 => {
+                    let big: Vec<u8> = (0..(700 + 37 * (var % 8))).map(|k| k as u8).collect();
+                    send(g, i, true, &big);
+                    g.failsend(i, 1);
+                    send(g, i, var % 4 < 2, &big);
+                    send(g, i, true, &[1, 2, 3]);
+                }
+                // flush
+                3 => {
+                    send(g, i, true, &[4, 5]);
+                    send(g, i, false, &[6]);
+                    g.failsend(i, 1);
+                    g.line(&format!("{} flush", Gen::ep(i)));
+                    send(g, i, true, &[7]);
+                }
+                // tick with a due send timer: keep-alive, or queued data
+                4 => {
+                    if var % 2 == 0 {
+                        send(g, i, true, &[8, 9]);
+                        send(g, i, false, &[10]);
+                    }
+                    g.line("time 500");
+                    g.failsend(i, 1);
+                    g.line(&format!("{} tick", Gen::ep(i)));
+                }
+                // tick with a due retransmission: one datagram / several, the k-th fails
+                5 | 6 => {
+                    let n = if kind == 5 { 1 } else { 3 + var % 4 };
+                    for k in 0..n {
+                        let data = vec![k as u8; 600 + 50 * (var % 5)];
+                        send(g, i, true, &data);
+                        if k % 2 == 0 {
+                            send(g, i, false, &[9, k as u8]);
+                        }
+                    }
+                    g.line(&format!("{} flush", Gen::ep(i)));
+                    for n in g.undelivered(i) {
+                        g.w.eps[i].hist[n].delivered = 1;
+                    }
+                    send(g, i, false, &[7, 7]);
+                    g.line("time 1000");
+                    g.failsend(i, if kind == 5 { 1 } else { 1 + (var % 3) as u32 });
+                    g.line(&format!("{} tick", Gen::ep(i)));
+                    g.line(&format!("{} needs_tick", Gen::ep(i)));
+                    g.line(&format!("{} flush", Gen::ep(i)));
+                }
+                // the peer sees a gap and asks for a resend; the retransmission (k-th datagram) fails
+                7 => {
+                    for k in 0..(1 + var % 4) {
+                        let data = vec![k as u8; 500 + 60 * (var % 5)];
+                        send(g, i, true, &data);
+                    }
+                    g.line(&format!("{} flush", Gen::ep(i)));
+                    for n in g.undelivered(i) {
+                        g.w.eps[i].hist[n].delivered = 1;
+                    }
+                    send(g, i, true, &[1, 2, 3]);
+                    g.line(&format!("{} flush", Gen::ep(i)));
+                    for n in g.undelivered(i) {
+                        g.deliver(i, n);
+                    }
+                    g.line(&format!("{} flush", Gen::ep(1 - i)));
+                    g.failsend(i, 1 + (var % 2) as u32);
+                    for n in g.undelivered(1 - i) {
+                        g.deliver(1 - i, n);
+                    }
+                }
+                // disconnect: the close is not sent; the peer never learns (no progress obligation),
+                // but both sides must stay well-behaved
+                8 => {
+                    if var % 2 == 0 {
+                        send(g, i, true, &[11]);
+                    }
+                    g.failsend(i, 1);
+                    g.line(&format!("{} disconnect 627965", Gen::ep(i)));
+                    g.line(&format!("{} needs_tick", Gen::ep(i)));
+                    g.line(&format!("{} tick", Gen::ep(i)));
+                    send(g, 1 - i, true, &[12]);
+                    g.line(&format!("{} flush", Gen::ep(1 - i)));
+                    deliver_all(g);
+                }
+                // connless
+                _ => {
+                    g.failsend(i, 1);
+                    g.line(&format!("{} sendcl 0102", Gen::ep(i)));
+                    g.line(&format!("{} sendcl 0304", Gen::ep(i)));
+                }
+            }
+        }
+    }
+    if !alive(g) {
+        return;
+    }
+    // consequences: a little traffic, then the network behaves
+    if kind >= 2 && kind != 8 {
+        deliver_all(g);
+    }
+    fault_end(g, 40);
+    if alive(g) && g.w.eps[0].kind() == "Online" && g.w.eps[1].kind() != "Disconnected" {
+        send(g, 0, true, &[0x61]);
+        if g.w.eps[1].kind() == "Online" {
+            send(g, 1, true, &[0x62]);
+        }
+        g.fair_suffix(30);
+    }
+}
+
+/// random two-endpoint session in which sends fail now and then, then the fair suffix
+fn sess_fault_random(g: &mut Gen, n_ops: usize) {
+    g.line("new");
+    let tokenless = !IS7 && g.rng.chance(1, 3);
+    if g.rng.chance(1, 3) {
+        // faults already during the handshake
+        let i = g.rng.below(2) as usize;
+        let k = 1 + g.rng.below(3) as u32;
+        g.failsend(i, k);
+    }
+    let lossy = *g.rng.pick(&[0u64, 0, 200]);
+    if !g.handshake(lossy, tokenless) {
+        if alive(g) {
+            fault_end(g, 40);
+        }
+        return;
+    }
+    for _ in 0..n_ops {
+        if !alive(g) {
+            break;
+        }
+        if g.rng.chance(1, 6) {
+            let i = g.rng.below(2) as usize;
+            let k = *g.rng.pick(&[1u32, 1, 1, 2, 3]);
+            g.failsend(i, k);
+        }
+        random_op(g, false);
+    }
+    if alive(g) && g.w.pure {
+        fault_end(g, 60);
+    }
+}
+
 fn gen_all(tier: &str, seed: u64, out: &mut dyn std::io::Write) {
     let mut g = Gen::new(out, seed.wrapping_mul(0x9e3779b97f4a7c15) ^ if IS7 { 0x7777 } else { 0x6666 });
     let (n_random, n_ops, n_foreign, n_wrap) = match tier {
@@ -507,5 +713,20 @@ fn gen_all(tier: &str, seed: u64, out: &mut dyn std::io::Write) {
     }
     for _ in 0..n_wrap {
         sess_wrap(&mut g, 1250);
+    }
+    // send faults (own random stream, so that the sessions above stay what they were)
+    let (n_var, n_frandom) = match tier {
+        "thorough" => (60usize, 600usize),
+        "search" => (6, 40),
+        _ => (6, 30),
+    };
+    g.rng = Rng::new(seed.wrapping_mul(0x9e3779b97f4a7c15) ^ if IS7 { 0x6661_7537 } else { 0x6661_7536 });
+    for var in 0..n_var {
+        for kind in 0..10 {
+            sess_fault(&mut g, kind, var);
+        }
+    }
+    for _ in 0..n_frandom {
+        sess_fault_random(&mut g, n_ops);
     }
 }
